@@ -301,8 +301,10 @@ func checkBudgets(src, label string, expectA int, allBudgets bool, r *lib.RNG) {
 		}
 	}
 	if bad != "" {
+		// the counter does not move the way the model says; the model-independent budget oracles below still apply
+		// (at most N decrements, monotonicity), so the sweep goes on
 		res.Disagree(lib.Disagreement{Stream: "budget", Input: in(-1), Model: "every instruction performs 0 or 1 tracked allocations", Impl: bad})
-		return
+		allBudgets = allBudgets || A <= 64
 	}
 	if expectA >= 0 && int64(expectA) != A {
 		res.Disagree(lib.Disagreement{Stream: "budget", Input: in(-1), Model: fmt.Sprintf("%d tracked allocations (site table)", expectA), Impl: fmt.Sprintf("%d", A)})
@@ -1365,9 +1367,25 @@ func runContext(src string, timeout time.Duration) (err error, panicv string, hu
 
 func depthStream(r *lib.RNG) {
 	// frames: zero-argument recursion uses one operand-stack slot per level, so frames run out first
-	for _, D := range []int{3, 500, tengo.MaxFrames - 3, tengo.MaxFrames - 2, tengo.MaxFrames - 1, tengo.MaxFrames, tengo.MaxFrames + 1, 3000, 100000} {
-		src := fmt.Sprintf("d := %d\nf := func() { if d == 0 { return 0 }; d -= 1; return f() + 1 }\nx := f()\n", D)
-		in := input{Kind: "depth", Source: src, Note: fmt.Sprintf("%d nested non-tail calls", D+1)}
+	shapes := []string{
+		// direct self recursion, mutual recursion through two and three functions, a closure calling itself through
+		// a captured variable: the frame limit applies to every call, not only to calls of the running function
+		"d := %d\nf := func() { if d == 0 { return 0 }; d -= 1; return f() + 1 }\nx := f()\n",
+		"d := %d\ng := undefined\nf := func() { if d == 0 { return 0 }; d -= 1; return g() + 1 }\ng = func() { if d == 0 { return 0 }; d -= 1; return f() + 1 }\nx := f()\n",
+		"d := %d\ng := undefined\nh := undefined\nf := func() { if d == 0 { return 0 }; d -= 1; return g() + 1 }\ng = func() { if d == 0 { return 0 }; d -= 1; return h() + 1 }\nh = func() { if d == 0 { return 0 }; d -= 1; return f() + 1 }\nx := f()\n",
+		"d := %d\nmk := func() { r := undefined; r = func() { if d == 0 { return 0 }; d -= 1; return r() + 1 }; return r }\nf := mk()\nx := f()\n",
+	}
+	for si, D0 := range []int{3, 500, tengo.MaxFrames - 3, tengo.MaxFrames - 2, tengo.MaxFrames - 1, tengo.MaxFrames, tengo.MaxFrames + 1, 3000, 100000,
+		-(tengo.MaxFrames - 2), -(tengo.MaxFrames - 1), -tengo.MaxFrames, -3000, -(tengo.MaxFrames - 2) - 1<<20, -(tengo.MaxFrames-1) - 1<<20, -3000 - 1<<20,
+		-(tengo.MaxFrames - 3) - 2<<20, -(tengo.MaxFrames-2) - 2<<20, -(tengo.MaxFrames-1) - 2<<20, -3000 - 2<<20} {
+		// non-negative D: shape 0; negative encodings: the other shapes at the depths around the limit
+		_ = si
+		shape, D := 0, D0
+		if D0 < 0 {
+			shape, D = 1+(-D0)>>20, (-D0)&(1<<20-1)
+		}
+		src := fmt.Sprintf(shapes[shape], D)
+		in := input{Kind: "depth", Source: src, Note: fmt.Sprintf("%d nested non-tail calls, shape %d", D+1, shape)}
 		c, err := compile(src)
 		if err != nil {
 			fatal(err)
